@@ -57,6 +57,8 @@ Definition model (c : case) : tobs :=
      b_delivered_cl := Some (e_delivered (cl s));
      b_finished_cb := 1; b_goroutines := 0 |}.
 
+Definition term_eqb (a b : term) : bool :=
+  match a, b with TFinished, TFinished | TFailed, TFailed => true | _, _ => false end.
 Definition estate_eqb (a b : estate) : bool :=
   match a, b with
   | SEst, SEst => true
